@@ -426,7 +426,11 @@ func (h *Harness) runOne(t *testing.T, seed uint64, sc *Script, yl []YieldDecisi
 					// the property of this harness says nothing about goroutines: a leak is reported
 					// in the evidence (inconclusive run + probe), never as a violation
 					x.Probe("bubble-ended-with-blocked-goroutines")
-					x.Inconclusive("bubble ended with blocked goroutines")
+					if x.Viol == nil {
+						// (a violation the harness has already recorded stands on its own evidence;
+						// goroutines left behind are then most likely its consequence)
+						x.Inconclusive("bubble ended with blocked goroutines")
+					}
 				}
 				if p := os.Getenv("HYSIM_LEAKLOG"); p != "" {
 					f, _ := os.OpenFile(p, os.O_CREATE|os.O_WRONLY|os.O_APPEND, 0o644)
